@@ -535,6 +535,70 @@ def r06g(run, A: FuncInfo, B: FuncInfo):
         run.floor("R06g", f"absence passes in {f.name}", n_loops, 1)
 
 
+def r06h(run):
+    """the alias tables the data-first strategy reads are rebuilt from the current fields only"""
+    f = run.repo.func("utype.parser.base", "BaseParser.generate_aliases")
+    fa = analysis(f)
+    published = {}
+    for n in fa.cfg.nodes:
+        if n.kind == "stmt" and isinstance(n.ast, ast.Assign) and isinstance(n.ast.targets[0], ast.Attribute) \
+                and unparse(n.ast.targets[0].value) == "self" and n.ast.targets[0].attr in (
+                    "field_alias_map", "attr_alias_map", "case_insensitive_names") and isinstance(n.ast.value, ast.Name):
+            published[n.ast.targets[0].attr] = (n, n.ast.value.id)
+    run.floor("R06h", "alias tables published by generate_aliases", len(published), 3)
+    for attr, (n, local) in sorted(published.items()):
+        inits = [d for d in fa.cfg.nodes if d.kind == "stmt" and isinstance(d.ast, ast.Assign)
+                 and unparse(d.ast.targets[0]) == local]
+        fresh = bool(inits) and all(
+            isinstance(d.ast.value, (ast.Dict, ast.Set)) and not (d.ast.value.keys if isinstance(d.ast.value, ast.Dict) else d.ast.value.elts)
+            or isinstance(d.ast.value, ast.Call) and unparse(d.ast.value.func) in ("dict", "set") and not d.ast.value.args
+            and not d.ast.value.keywords for d in inits)
+        run.check("R06h", f, f"`self.{attr}` is rebuilt from an empty table", fresh,
+                  construct=f"alias table {attr} seeded from earlier state",
+                  message=f"generate_aliases initialises `{local}` (published as self.{attr}) from "
+                          f"{[unparse(d.ast.value)[:40] for d in inits]} instead of an empty table",
+                  necessity="aliases a subclass dropped when re-declaring a field survive in the table: the data-first "
+                            "strategy (which resolves keys through it) still accepts them, the field-first strategy "
+                            "(which walks each field's own aliases) does not", node=n.ast)
+
+
+def r06i(run, A: FuncInfo, B: FuncInfo):
+    """whether unknown keys are examined depends on the addition policy only, never on counts"""
+    total = 0
+    for f in (A, B):
+        fa = analysis(f)
+        for n, c in fa.all_calls():
+            if call_attr(c) != "parse_addition":
+                continue
+            total += 1
+            sized = [unparse(a) for a, p in fa.facts.atoms_at(n) if "len(" in unparse(a)]
+            run.check("R06i", f, "the extra-key pass is not gated by a size comparison", not sized,
+                      construct="extra-key pass gated by counts",
+                      message=f"{f.qualname}: `{unparse(c)[:50]}` only runs when {sized}",
+                      necessity="the bookkeeping sets hold every alias of a consumed field, not the consumed keys: "
+                                "their size says nothing about how many input keys are unknown, so unknown keys are "
+                                "silently dropped (addition=False / no_data_loss no longer rejects them)", node=c)
+        # marks of consumed keys are made only for fields that got a value
+        filt = set()
+        for n, c in fa.all_calls():
+            if call_attr(c) == "parse_addition":
+                for a, p in fa.facts.atoms_at(n):
+                    if isinstance(a, ast.Compare) and isinstance(a.ops[0], ast.In) and not p and isinstance(a.comparators[0], ast.Name):
+                        filt.add(a.comparators[0].id)
+        for setname in filt:
+            for n, c in fa.all_calls():
+                if isinstance(c.func, ast.Attribute) and unparse(c.func.value) == setname and c.func.attr in ("update", "add"):
+                    got = any(isinstance(a, ast.Call) and call_attr(a) == "unprovided" and not p and a.args
+                              and value_state(fa, n, a.args[0]) == {"RAW"} for a, p in fa.facts.atoms_at(n))
+                    run.check("R06i", f, f"`{unparse(c)[:40]}` marks keys as consumed only for a field that got a value", got,
+                              construct=f"keys marked consumed without a value ({setname})",
+                              message=f"{f.qualname}: `{unparse(c)}` marks a field's names as consumed on a path where the "
+                                      f"field did not take a value from the input",
+                              necessity="a keyword named like a positional-only parameter is swallowed instead of "
+                                        "reaching **kwargs: f(1, a=4) for def f(a, /, **kw) must bind kw={'a': 4}", node=c)
+    run.floor("R06i", "extra-key passes", total, 2)
+
+
 NORMALISERS = ("lower", "casefold", "upper")
 
 
@@ -561,7 +625,7 @@ def r06e(run):
 
 
 def check(run):
-    run.rules_run += ["R06a", "R06b", "R06c", "R06d", "R06e", "R06f", "R06g"]
+    run.rules_run += ["R06a", "R06b", "R06c", "R06d", "R06e", "R06f", "R06g", "R06h", "R06i"]
     run.explain("C06: the two lookup strategies are discovered as the callees of the strategy conditional in "
                 "parse_data. (R06a) for each action (raise AbsenceError / AliasConflictError / DependenciesAbsenceError, "
                 "parse a field, store parsed, store default for a missing / a no-input field, store an extra key, collect "
@@ -577,4 +641,6 @@ def check(run):
     r06d(run, A, B)
     r06f(run, A, B)
     r06g(run, A, B)
+    r06h(run)
+    r06i(run, A, B)
     r06e(run)
